@@ -121,17 +121,30 @@ def pgQuoted (n : String) : Bool := ["select", "order", "group", "desc", "index"
     to the table of the previous statement) -/
 def colDefPgOk (c : ColDef) : Bool := c.opts.all (·.kind == .primaryKey)   -- an inline PRIMARY KEY is recorded (as a key)
 
-def pgFragment : String → List Stmt → Bool
+def pgFragmentAux (renames : Bool) : String → List Stmt → Bool
   | _, [] => true
   | cursor, s :: rest =>
     match s with
-    | .createTable t _ cols pk => cols.all colDefPgOk && pk.isEmpty && pgFragment t rest
-    | .addColumn t c .none => colDefPgOk c && !pgQuoted t && !pgQuoted c.name && pgFragment cursor rest
-    | .dropColumn t c => !pgQuoted t && !pgQuoted c && pgFragment cursor rest
-    | .createIndex t _ _ _ u => t == cursor && u == "" && pgFragment cursor rest
-    | .alterType t c _ => !pgQuoted t && !pgQuoted c && pgFragment cursor rest
-    | .dropNotNull t c => !pgQuoted t && !pgQuoted c && pgFragment cursor rest
+    | .createTable t _ cols pk => cols.all colDefPgOk && pk.isEmpty && pgFragmentAux renames t rest
+    | .addColumn t c .none => colDefPgOk c && !pgQuoted t && !pgQuoted c.name && pgFragmentAux renames cursor rest
+    | .dropColumn t c => !pgQuoted t && !pgQuoted c && pgFragmentAux renames cursor rest
+    | .createIndex t _ _ _ u => t == cursor && u == "" && pgFragmentAux renames cursor rest
+    | .alterType t c _ => !pgQuoted t && !pgQuoted c && pgFragmentAux renames cursor rest
+    | .dropNotNull t c => !pgQuoted t && !pgQuoted c && pgFragmentAux renames cursor rest
+    -- RENAME COLUMN renames the column record only (recorded finding rename-column): faithful when the script declares
+    -- no index and no key at all
+    | .renameColumn t o n => renames && !pgQuoted t && !pgQuoted o && !pgQuoted n && pgFragmentAux renames cursor rest
     | _ => false
+
+/-- the script declares no index and no key -/
+def noKeys (ss : List Stmt) : Bool := ss.all fun s => match s with
+  | .createIndex .. => false
+  | .createTable _ _ cols pk => pk.isEmpty && cols.all (fun c => c.opts.isEmpty)
+  | .addColumn _ c _ => c.opts.isEmpty
+  | .addPrimaryKey .. => false
+  | _ => true
+
+def pgFragment (cursor : String) (ss : List Stmt) : Bool := pgFragmentAux (noKeys ss) cursor ss
 
 /-- the fragment the sqlite reader glue understands: CREATE TABLE without DEFAULT, CREATE INDEX -/
 def sqliteFragment : List Stmt → Bool
